@@ -92,8 +92,11 @@ def concretize(case, root: Path, rng_pick):
     elif c["sarif"] == "duplicateTool":
         # two files of one tool - adjacent, or with a file of the other tool in between / before
         S, Q = SEMGREP_SARIF, CODEQL_SARIF
-        lists = [[("s1", S), ("s2", S)], [("q1", Q), ("s1", S), ("q2", Q)], [("s1", S), ("q1", Q), ("s2", S)], [("q1", Q), ("q2", Q)], [("q1", Q), ("s1", S), ("s2", S)]]
-        extra += ["--sarif", ",".join(sarif_file(n + ".sarif", d) for n, d in lists[v % 5])]
+        # ... or one of the two files has a run the detectors cannot read (no driver name) in front of the tool's run
+        SM = dict(S, runs=[{"tool": {"driver": {}}, "results": []}] + list(S["runs"]))
+        lists = [[("s1", S), ("s2", S)], [("q1", Q), ("s1", S), ("q2", Q)], [("s1", S), ("q1", Q), ("s2", S)], [("q1", Q), ("q2", Q)], [("q1", Q), ("s1", S), ("s2", S)],
+                 [("s1", S), ("sm", SM)], [("sm", SM), ("s2", S)]]
+        extra += ["--sarif", ",".join(sarif_file(n + ".sarif", d) for n, d in lists[v % 7])]
     elif v % 3 == 1:
         extra += ["--sarif", sarif_file("s1.sarif", SEMGREP_SARIF)]
     elif v % 7 == 2:
@@ -207,6 +210,10 @@ def cases(ctx):
         if i % 4 == ctx.seed % 4:
             out.append({"toks": ["positional", "unknownOpt"], "conds": c, "variant": i})
             out.append({"toks": ["positional", "help"], "conds": c, "variant": i})
+    # every way of naming two files of one tool, in every run
+    for k in range(7):
+        for o in ("none", "writable"):
+            out.append({"toks": ["positional"], "conds": dict(base, sarif="duplicateTool", output=o), "variant": k})
     ctx.exhaustive_parts.append(f"condition lattice: {len(lattice)} combinations x 6 concretisations")
     # (c) random longer command lines x random conditions
     for i in range(ctx.pick(60, 600)):
